@@ -372,3 +372,50 @@ def sib_sweep(rng, reps):
                                 if c is not None and c.setregs is not None:
                                     yield c
                                     break
+
+
+def _twos(v, n):
+    return v & ((1 << n) - 1)
+
+
+def mul_sweep(rng, reps):
+    """multiplications whose product lies at the edge of what fits: register forms of IMUL r,r/m (0F AF), IMUL r,r/m,imm (69 / 6B),
+    and the one-operand IMUL / MUL (F6 / F7 /5 /4) at every operand size, with operands chosen so that the signed (unsigned for MUL)
+    product is within +-2 of +-2^(n-1), +-2^n, 0 - where CF/OF change - besides random operands.  Destination rbx (reg field),
+    source rcx (rm field); the one-operand forms multiply rax (al) by rcx."""
+    for rep in range(reps):
+        for n in (8, 16, 32, 64):
+            pre = {8: b"", 16: b"\x66", 32: b"", 64: b"\x48"}[n]
+            forms = ["one-imul", "one-mul"] + ([] if n == 8 else ["two", "imm8", "immfull"])
+            for form in forms:
+                for edge in (n - 1, n, n - 2, None):
+                    for sa, sb in ((1, 1), (1, -1), (-1, 1), (-1, -1)):
+                        if edge is None:
+                            a, b = rng.getrandbits(n), rng.getrandbits(n)
+                        else:
+                            i = rng.randrange(0, edge + 1)
+                            a = sa * (1 << i) + rng.choice([0, 0, 1, -1])
+                            bb = (1 << (edge - i))
+                            b = sb * bb + rng.choice([0, 0, 1, -1])
+                        regs = {}
+                        if form == "two":
+                            code = pre + b"\x0F\xAF" + bytes([0xC0 | (3 << 3) | 1])
+                            regs[3], regs[1] = a, b
+                            name = "IMUL2"
+                        elif form in ("imm8", "immfull"):
+                            isz = 1 if form == "imm8" else (2 if n == 16 else 4)
+                            lim = 1 << (8 * isz - 1)
+                            imm = max(-lim, min(lim - 1, a if a else 3))
+                            if edge is not None and imm not in (0, 1, -1):
+                                q = (sb * (1 << edge)) // imm
+                                b = q + rng.choice([0, 1, -1])
+                            code = pre + (b"\x6B" if form == "imm8" else b"\x69") + bytes([0xC0 | (3 << 3) | 1]) + _twos(imm, 8 * isz).to_bytes(isz, "little")
+                            regs[1] = b
+                            name = "IMUL3"
+                        else:
+                            ext = 5 if form == "one-imul" else 4
+                            code = pre + bytes([0xF6 | (0 if n == 8 else 1), 0xC0 | (ext << 3) | 1])
+                            regs[0], regs[1] = a, b
+                            name = "IMUL1" if ext == 5 else "MUL1"
+                        setregs = {k: ((rng.getrandbits(64) & ~((1 << n) - 1)) | _twos(v, n)) for k, v in regs.items()}
+                        yield Case(name, code, CF | OF, n, setregs=setregs, mul={"form": form, "width": n, "edge": edge})
